@@ -180,7 +180,11 @@ theorem rloopWith_mono (run : St → Res) (hrun : Mono run) (runElse : Option (S
   | cons name sub =>
     simp only
     cases getVar s.c.vars name with
-    | none => exact CMono.refl _
+    | none =>
+      simp only
+      cases hel : runElse with
+      | none => exact CMono.refl _
+      | some re => exact helse re hel s
     | some vv =>
       simp only
       have hl := rloopLoop_mono run hrun ls (loopItems vv sub) 0 s
